@@ -262,6 +262,21 @@ def run_case(case, ctx):
         fail, labels = judge(r, full, v)
         if fail is not None:
             break
+    if fail is None and (sel == 1 or seed is None) and len(text) < 20000:
+        # metamorphic: white space in front of a text changes nothing. The text itself (nothing before its first
+        # character) and the same text after one blank are both accepted or both rejected, and print the same
+        ra = ctx.worker("dbg").run(text, budget=200000)
+        rb = ctx.worker("dbg").run(" " + text, budget=200000)
+        runs += 2
+        fail, _l = judge(ra, text, "dbg, text at the very start of the file")
+        if fail is None:
+            ca, cb = ra.get("outcome") == "compile_error", rb.get("outcome") == "compile_error"
+            if ca != cb or (not ca and ra.get("outcome") == "ok" and rb.get("outcome") == "ok" and ra.get("stdout") != rb.get("stdout")):
+                fail = Failure("%s/leading-blank-changes-the-text" % PROPERTY,
+                               "the text alone: %s, stdout %r; after one blank: %s, stdout %r\n--- text\n%s" %
+                               (ra.get("outcome"), (ra.get("stdout") or "")[:200], rb.get("outcome"), (rb.get("stdout") or "")[:200], text[:3000]),
+                               {"text": text})
+        labels = labels + ["leading-blank-pair"]
     if fail is None and seed is None:
         # replayed / boundary / fuzz texts also go through the verifier, like the fuzz target does
         r = ctx.worker("dbg").run(text, mode=W.MODE_DUMP)
@@ -306,6 +321,13 @@ def boundary_texts(tier):
     out.append(("let-named-like-its-initializer", "let a = 1;\nfn f() { let a = a; }"))
     out.append(("lambda-continue", "for i in [1] { let f = || { continue; }; }"))
     out.append(("lambda-break", "while true { let f = || { break; }; break; }"))
+    # first characters of a file (nothing has been consumed when they are scanned)
+    for k, head in enumerate(["/x/ not a program (((", "/ /", "//", "/", "x//y", "/*", "1//2", "\"//\"", "/x//", "é//", "/é/ ((", "\n/x/ (("]):
+        out.append(("file-start-%d" % k, head + "\nprint(\"second line\");"))
+    # interpolations whose segment count is at the operand limit, with and without an empty trailing segment
+    for n in (32765, 32766, 32767, 32768):
+        out.append(("interp-pairs-%d" % n, "let a = 1;\nlet s = \"" + "${a}" * n + "\";\nprint(s.len());"))
+        out.append(("interp-pairs-%d-empty-tail" % n, "let a = 1;\nlet s = \"" + "${a}" * n + "${}\";\nprint(s.len());"))
     out.append(("nest-64", "print(" + "(" * 60 + "1" + ")" * 60 + ");"))
     out.append(("empty", ""))
     out.append(("only-comment", "// nothing"))
